@@ -29,19 +29,15 @@ def payload_field(eng):
     return None, (rets[0] if rets else None)
 
 
-def run(eng, ctx):
-    fr = oracle("frames.json")["rtcm3"]
-    crcw = oracle("frames.json")["crc24q"]["width"] // 8
-    ser = eng.repo.func(f"{eng.message_cls}.serialize")
-    ctx.touch(func=ser.qualname, file=eng.repo.relpath(ser.module))
+def payload_verbatim(eng, ctx, rid="C07.D3"):
+    """D3 (shared with C01): the payload getter returns the stored field; the field is stored once, from the parameter unmodified."""
     pf, pret = payload_field(eng)
-    # ---------------- D3
-    ctx.rule("C07.D3", "the payload getter returns the stored field; the field is stored once, in the constructor, from the payload parameter unmodified")
+    ctx.rule(rid, "the payload getter returns the stored field; the field is stored once, in the constructor, from the payload parameter unmodified")
     pg = eng.repo.func(f"{eng.message_cls}.payload")
-    ctx.check(pf is not None, "C07.D3", pg.qualname, "getter returns the stored payload", expected="return self.<payload field>", found=show(pret.term)[:60] if pret else "no return", **eng.loc(pg, pg.node))
+    ctx.touch(func=pg.qualname, file=eng.repo.relpath(pg.module))
+    ctx.check(pf is not None, rid, pg.qualname, "getter returns the stored payload", expected="return self.<payload field>", found=show(pret.term)[:60] if pret else "no return", **eng.loc(pg, pg.node))
     if pf is None:
-        return
-    P = ("field", pf)
+        return None
     mod, cls = eng.message_cls.split(".")
     nst = 0
     for f in eng.repo.methods(mod, cls):
@@ -50,11 +46,24 @@ def run(eng, ctx):
             if e.kind in ("store", "aug") and e.target == ("self", pf):
                 nst += 1
                 ok = f.name == "__init__" and e.term == ("param", "payload") and e.kind == "store" and not e.loops
-                ctx.check(ok, "C07.D3", f.qualname, norm(e.node), expected=f"single store self.{pf} = payload in the constructor", found=f"{e.kind} of {show(e.term)[:50]} in {f.name}", **eng.loc(f, e.node))
+                ctx.check(ok, rid, f.qualname, norm(e.node), expected=f"single store self.{pf} = payload in the constructor", found=f"{e.kind} of {show(e.term)[:50]} in {f.name}", **eng.loc(f, e.node))
             if e.kind == "call" and e.term[2] == ("builtin", "setattr") and len(e.term[3]) == 3 and e.term[3][1] == ("const", pf):
                 nst += 1
-                ctx.bad("C07.D3", f.qualname, norm(e.node), expected="payload stored once", found="setattr of the payload field", **eng.loc(f, e.node))
+                ctx.bad(rid, f.qualname, norm(e.node), expected="payload stored once", found="setattr of the payload field", **eng.loc(f, e.node))
     ctx.instance("payload stores", nst, 1)
+    return pf
+
+
+def run(eng, ctx):
+    fr = oracle("frames.json")["rtcm3"]
+    crcw = oracle("frames.json")["crc24q"]["width"] // 8
+    ser = eng.repo.func(f"{eng.message_cls}.serialize")
+    ctx.touch(func=ser.qualname, file=eng.repo.relpath(ser.module))
+    pf = payload_verbatim(eng, ctx)
+    if pf is None:
+        return
+    P = ("field", pf)
+    mod, cls = eng.message_cls.split(".")
 
     # ---------------- D1 serialize
     ctx.rule("C07.D1", "serialize = HDR ‖ len2bytes(P) ‖ P ‖ crc2bytes(HDR ‖ len2bytes(P) ‖ P)")
